@@ -154,6 +154,25 @@ inline const char* genEncodeDecode(State& st, Rng& r, Sink& s, bool& padded, int
     }
     if (r.chance(1, 4))
     {
+        // a packet edited in place through getPayload() (shrinking setData) and then copied, as user code does
+        wire::Bytes longer = r.bytes(r.range(100, 400)), final = r.bytes(r.range(0, 60));
+        EthernetPayload e;
+        Packet p;
+        {
+            InLib g;
+            e.setData(longer.data(), static_cast<uint16_t>(longer.size()));
+            p.setPayload(e);
+            auto& ep = static_cast<EthernetPayload&>(p.getPayload());
+            ep.setData(final.data(), static_cast<uint16_t>(final.size()));
+            ep.setFlags(0x0080);
+        }
+        p.setVersion(version);
+        p.setTimestamp(r.next());
+        if (typeMode == 0 || typeMode == 3)
+            pkts.push_back(p);
+    }
+    if (r.chance(1, 4))
+    {
         InLib g;
         st.enc.setDeviceId(static_cast<uint16_t>(r.next()));
     }
